@@ -74,6 +74,7 @@ class ConnGen:
         self.started = False
         self.profile = profile or {}
         self.nmsg = 0
+        self.focus = None                  # object the next protocol message should prefer (just re-created id)
 
     # ---- helpers
     def sent(self, is_event):
@@ -226,6 +227,9 @@ class ConnGen:
         P = protocols()
         for _ in range(8):
             oid = self.pick_obj(d, None, allow_dead=d.chance(0.1))
+            if self.focus is not None and self.focus in self.live and d.chance(0.75):
+                oid = self.focus
+            self.focus = None
             iface = self.iface_of(oid)
             if iface not in P:
                 return self.step_freeform(d, oid)
@@ -287,6 +291,21 @@ class ConnGen:
         name = d.choice(['set_title', 'set_app_id'])
         return dict(sent=self.sent(False), iface='xdg_toplevel', id=tl, name=name, args=[['str', d.choice(STRS)]])
 
+    def step_retype(self, d):
+        """re-create a freed client id with a *different* interface and make the next message target it"""
+        reg = self.pick_obj(d, 'wl_registry')
+        pool = sorted(i for i in self.dead if i < SERVER_BASE and i not in self.live)
+        if reg is None:
+            return None
+        if not pool:
+            return self.step_delete(d)
+        oid = d.choice(pool)
+        iface = d.choice([c for c in CORE if c != self.dead.get(oid)])
+        self._born(oid, iface)
+        self.focus = oid
+        return dict(sent=self.sent(False), iface='wl_registry', id=reg, name='bind',
+                    args=[['uint', d.int(1, 60)], ['str', iface], ['uint', d.int(1, 9)], ['new', None, oid]])
+
     def step_deep_reuse(self, d):
         """delete and re-create the same client id (towards incarnation letters beyond z)"""
         pool = sorted(i for i in self.dead if i < SERVER_BASE and i not in self.live)
@@ -306,7 +325,7 @@ class ConnGen:
                 m = self.step_first(d)
                 self.nmsg += 1
                 return m
-        w = self.profile.get('weights') or dict(delete=14, bind=12, message=40, server_event=10, deep=0, sync=4, enum=8, title=6)
+        w = self.profile.get('weights') or dict(delete=14, bind=12, message=40, server_event=10, deep=0, sync=4, enum=8, title=6, retype=6)
         if kind is None:
             kind = d.weighted([(v, k) for k, v in sorted(w.items()) if v > 0])
         m = None
@@ -316,6 +335,7 @@ class ConnGen:
         elif kind == 'deep': m = self.step_deep_reuse(d)
         elif kind == 'enum': m = self.step_enum_message(d)
         elif kind == 'title': m = self.step_title(d)
+        elif kind == 'retype': m = self.step_retype(d)
         elif kind == 'sync': m = self.step_sync(d)
         elif kind == 'first' and 2 not in self.live and 2 not in self.dead: m = self.step_first(d)
         if m is None:
